@@ -140,6 +140,9 @@ func init() {
 		if fv, ok := s.ghost["fsnext:"+path]; ok {
 			mode = w.concInt(fv, "fault mode")
 			delete(s.ghost, "fsnext:"+path)
+		} else if fv, ok := s.ghost["fsnext:*"]; ok { // the next write, whatever file it goes to
+			mode = w.concInt(fv, "fault mode")
+			delete(s.ghost, "fsnext:*")
 		}
 		prefix := blob
 		prefix.X = TupleV{blob.X.(TupleV)[0], w.tc.False}
@@ -165,6 +168,24 @@ func init() {
 		}
 	}
 	stubs["os.WriteFile"] = stubs["io/ioutil.WriteFile"]
+	// os.Rename is atomic: the destination has the old or the new content, never a mixture
+	stubs["os.Rename"] = func(w *Worker, s *State, f *Frame, fn *ssa.Function, a []Value, d int) (Value, bool) {
+		from, to := w.concStr(a[0], "file name"), w.concStr(a[1], "file name")
+		c, ok := s.fsGet(from)
+		if !ok {
+			return w.newError(s, w.tc.Str("rename: no such file or directory")), false
+		}
+		s.fsPut(to, c)
+		delete(s.ghost, "fs:"+from)
+		s.covers["fs.rename"] = true
+		return IfaceV{}, false
+	}
+	intrinsics["FSSkip"] = func(w *Worker, s *State, f *Frame, fn *ssa.Function, a []Value, d int) (Value, bool) {
+		return w.tc.False, false
+	}
+	intrinsics["FSFaultEnd"] = func(w *Worker, s *State, f *Frame, fn *ssa.Function, a []Value, d int) (Value, bool) {
+		return nil, false
+	}
 	intrinsics["FSFaultNext"] = func(w *Worker, s *State, f *Frame, fn *ssa.Function, a []Value, d int) (Value, bool) {
 		if s.ghost == nil {
 			s.ghost = map[string]Value{}
